@@ -25,6 +25,18 @@ Choices where BASIC-PER leaves a sender's option (the model produces the CANONIC
   * 22    SET OF elements are sent in the order of the value (BASIC-PER); with canonical=True the
           encodings are sorted (only for concrete values).
 
+Two places where the text of the Recommendation leaves room and the model follows common practice:
+  * 11.1.4 / 11.9: an octet-aligned bit-field that is EMPTY (a string of length zero after a
+    bit-field length determinant) is added without padding bits (see `align_field`); set
+    PAD_EMPTY_ALIGNED_FIELDS = True for the literal reading "padding precedes every octet-aligned
+    bit-field";
+  * 13.2.6 a): the length of an INTEGER in the indefinite-length case of 11.5.7.4 is a constrained
+    whole number 1..k with k = octets needed for ("ub" - "lb"), the largest offset ever encoded.
+
+Every decision an implementation could plausibly take differently is a small method of `_Per`
+(`align_field`, `int_semi_constrained`, `choice_root_order`, `kmstring_aligned`, `omit_default`,
+...), so that a test can subclass the model to reproduce a deviating implementation exactly.
+
 Known limits (NotImplementedError): time types, ANY, EXTERNAL, EMBEDDED PDV, CHARACTER STRING,
 information objects, parameterised types, more than 64K OPTIONAL components (19.3).
 The parsed dictionary flattens a constraint specification into lists per kind ('restricted-to',
@@ -48,6 +60,13 @@ from lib.symvalue import Spec, BUILTIN, Equiv, members_split, enum_items        
 
 K16 = 16384
 K64 = 65536
+
+# 11.1.4: "any octet-aligned bit-fields shall be concatenated after (zero to seven) zero bits ...".
+# Read literally this pads before an empty octet-aligned bit-field as well; the implementations
+# the model's author knows to be interoperability tested (Objective Systems' runtime as used in
+# ooh323c: "doAlign = (len > 0)"; Wireshark's PER dissector: "there is no string at all, so don't
+# do any byte alignment") and asn1tools' own test vectors for character strings do not.
+PAD_EMPTY_ALIGNED_FIELDS = False
 
 
 class EncodeError(Exception):
@@ -294,6 +313,13 @@ class _Per:
         if self.aligned:
             buf.align()
 
+    def align_field(self, buf, nitems, kind):
+        """start of an octet-aligned bit-field holding `nitems` items; kind: 'octets' (OCTET STRING,
+        open type, integer / REAL / OID octets), 'bits' (BIT STRING), 'chars' (known-multiplier
+        string).  See PAD_EMPTY_ALIGNED_FIELDS for the empty field."""
+        if nitems > 0 or PAD_EMPTY_ALIGNED_FIELDS:
+            self.align(buf)
+
     def complete(self, buf):
         """11.1: complete encoding of an outermost value: a whole number of octets, and at least one"""
         if len(buf) == 0:
@@ -310,7 +336,7 @@ class _Per:
 
         def emit(out, a, b):
             out.bits.extend(inner.bits[8 * a:8 * b])
-        self.with_length(buf, n, 0, None, emit, True)        # 11.2.2: unconstrained length, 11.9
+        self.with_length(buf, n, 0, None, emit, 'octets')    # 11.2.2: unconstrained length, 11.9
 
     def nn_octets(self, v):
         """11.3.6: octets of the minimum-octets non-negative-binary-integer encoding (zero: one)"""
@@ -364,7 +390,7 @@ class _Per:
 
         def emit(out, a, b):
             out.bits.extend(tmp.bits[8 * a:8 * b])
-        self.with_length(buf, n, 0, None, emit, True)
+        self.with_length(buf, n, 0, None, emit, 'octets')
 
     def semi_constrained(self, buf, v, lb):
         """11.7 semi-constrained whole number (13.2.6 b: preceded by its length in octets)"""
@@ -396,15 +422,15 @@ class _Per:
 
     def with_length(self, buf, n, lb, ub, emit, align_items):
         """11.9: n items preceded by their length determinant.  lb / ub: PER-visible bounds of the
-        count (ub None: unbounded); emit(buf, a, b) adds items a..b-1; align_items: the items form an
-        octet-aligned bit-field in the ALIGNED variant"""
+        count (ub None: unbounded); emit(buf, a, b) adds items a..b-1; align_items: None, or the kind
+        of octet-aligned bit-field (see align_field) the items form in the ALIGNED variant"""
         if ub is not None and ub < K64:
             # 11.9.3.3 / 11.9.4.1: constrained whole number lb..ub (nothing when lb = ub)
             if n < lb or n > ub:
                 raise EncodeError('length %d outside %d..%d' % (n, lb, ub))
             self.constrained(buf, n, lb, ub)
             if align_items:
-                self.align(buf)
+                self.align_field(buf, n, align_items)
             emit(buf, 0, n)
             return
         done = 0
@@ -413,14 +439,14 @@ class _Per:
             if rest < K16:                                   # 11.9.3.6 / 11.9.3.7
                 self.unconstrained_length(buf, rest)
                 if align_items:
-                    self.align(buf)
+                    self.align_field(buf, rest, align_items)
                 emit(buf, done, n)
                 return
             m = min(rest // K16, 4)                          # 11.9.3.8: 11mmmmmm, m x 16K items follow,
             self.align(buf)                                  # then a further length (possibly 0)
             buf.uint(0xc0 | m, 8)
             if align_items:
-                self.align(buf)
+                self.align_field(buf, m * K16, align_items)
             emit(buf, done, done + m * K16)
             done += m * K16
 
@@ -484,9 +510,13 @@ class _Per:
         if lb is not None and ub is not None:
             self.constrained(buf, value, lb, ub)             # 13.2.1 (single value: empty), 13.2.2
         elif lb is not None:
-            self.semi_constrained(buf, value, lb)            # 13.2.3
+            self.int_semi_constrained(buf, value, lb)        # 13.2.3
         else:
             self.unconstrained(buf, value)                   # 13.2.4 (also when only ub is set)
+
+    def int_semi_constrained(self, buf, value, lb):
+        """13.2.3: only a lower bound: the offset from it as a semi-constrained whole number (11.7)"""
+        self.semi_constrained(buf, value, lb)
 
     # ---- 14 ENUMERATED ----------------------------------------------------------------------
     def enc_enumerated(self, buf, value, btd, bmod):
@@ -502,24 +532,31 @@ class _Per:
         if not marker:
             if not r_idx:
                 raise EncodeError('ENUMERATED value %r' % (value,))
-            self.constrained(buf, r_idx[0], 0, len(root) - 1)        # 14.2
+            self.enum_index(buf, r_idx[0], len(root))                # 14.2
         elif r_idx:
             buf.bit(0)                                               # 14.3, root
-            self.constrained(buf, r_idx[0], 0, len(root) - 1)
+            self.enum_index(buf, r_idx[0], len(root))
         elif a_idx:
             buf.bit(1)                                               # 14.3, addition
             self.normally_small(buf, a_idx[0])
         else:
             raise EncodeError('ENUMERATED value %r' % (value,))
 
+    def enum_index(self, buf, index, count):
+        """14.2: the index as a value of INTEGER (0..count-1), i.e. a constrained whole number"""
+        self.constrained(buf, index, 0, count - 1)
+
     # ---- 15 REAL ----------------------------------------------------------------------------
+    def real_octets(self, value):
+        return real_contents(value)
+
     def enc_real(self, buf, value):
         # 15.1 / 15.2: contents octets of CER/DER [X.690 11.3], as octets with a length determinant
-        octs = real_contents(value)
+        octs = self.real_octets(value)
 
         def emit(out, a, b):
             out.octets(bytes(octs[a:b]))
-        self.with_length(buf, len(octs), 0, None, emit, True)
+        self.with_length(buf, len(octs), 0, None, emit, 'octets')
 
     # ---- 16 BIT STRING ----------------------------------------------------------------------
     @staticmethod
@@ -549,7 +586,7 @@ class _Per:
         if ext:                                              # 16.6
             buf.bit(0 if inside else 1)
             if not inside:
-                self.with_length(buf, total, 0, None, emit, True)    # as if unconstrained
+                self.with_length(buf, total, 0, None, emit, 'bits')  # as if unconstrained
                 return
         elif not inside:
             raise EncodeError('BIT STRING size %d outside %r..%r' % (total, lb, ub))
@@ -561,7 +598,7 @@ class _Per:
             self.align(buf)
             emit(buf, 0, total)
         else:                                                # 16.11
-            self.with_length(buf, total, lb, ub, emit, True)
+            self.with_length(buf, total, lb, ub, emit, 'bits')
 
     # ---- 17 OCTET STRING --------------------------------------------------------------------
     def enc_octetstring(self, buf, value, chain):
@@ -578,7 +615,7 @@ class _Per:
         if ext:                                              # 17.3
             buf.bit(0 if inside else 1)
             if not inside:
-                self.with_length(buf, n, 0, None, emit, True)
+                self.with_length(buf, n, 0, None, emit, 'octets')
                 return
         elif not inside:
             raise EncodeError('OCTET STRING size %d outside %r..%r' % (n, lb, ub))
@@ -590,16 +627,27 @@ class _Per:
             self.align(buf)
             emit(buf, 0, n)
         else:                                                # 17.8
-            self.with_length(buf, n, lb, ub, emit, True)
+            self.with_length(buf, n, lb, ub, emit, 'octets')
 
     # ---- 19 SEQUENCE, 21 SET ----------------------------------------------------------------
-    def _present(self, value, m, module):
-        """is the component to be encoded as present?  19.5: a value equal to the DEFAULT is not"""
+    def _present(self, value, m, module, addition=False):
+        """is the component to be encoded as present?"""
         if m['name'] not in value:
             return False
-        if 'default' in m and self.is_default(value[m['name']], m, module):
+        if 'default' in m and self.omit_default(value[m['name']], m, module, addition):
             return False
         return True
+
+    def omit_default(self, v, m, module, addition):
+        """19.5: a component whose value is its DEFAULT value is not encoded (CANONICAL-PER: always;
+        BASIC-PER: always for simple types, sender's option otherwise - the model always omits).
+        The rule is not restricted to the extension root (`addition`: False for a root component,
+        True for an extension addition, 'group' for a component of an extension addition group)."""
+        return self.is_default(v, m, module)
+
+    def group_present(self, value, group, module):
+        """19.9 NOTE: an extension addition group is absent iff all its components are absent"""
+        return any(self._present(value, m, module, 'group') for m in group)
 
     def enc_sequence(self, buf, value, btd, bmod, is_set, as_group=None):
         if not isinstance(value, dict):
@@ -614,15 +662,16 @@ class _Per:
                 # the order of definition
                 tags = self.member_tags(btd, bmod, root)
                 root = [m for _t, _i, m in sorted(zip(tags, range(len(root)), root), key=lambda x: x[:2])]
+        in_add = 'group' if as_group is not None else False
         add_present = []
         for a in adds:
-            if isinstance(a, list):                          # 19.9 NOTE: a group none of whose
-                add_present.append(any(self._present(value, m, bmod) for m in a))   # components is present is absent
+            if isinstance(a, list):
+                add_present.append(self.group_present(value, a, bmod))
             else:
-                add_present.append(self._present(value, a, bmod))
+                add_present.append(self._present(value, a, bmod, True))
         if marker:
             buf.bit(1 if any(add_present) else 0)            # 19.1 extension bit
-        present = [self._present(value, m, bmod) for m in root]
+        present = [self._present(value, m, bmod, in_add) for m in root]
         optional = [bool(m.get('optional')) or 'default' in m for m in root]
         if sum(optional) >= K64:
             raise NotImplementedError('19.3: more than 64K optional components')
@@ -672,11 +721,11 @@ class _Per:
         if ext:                                              # 20.4
             buf.bit(0 if inside else 1)
             if not inside:
-                self.with_length(buf, n, 0, None, emit, False)
+                self.with_length(buf, n, 0, None, emit, None)
                 return
         elif not inside:
             raise EncodeError('SEQUENCE OF size %d outside %r..%r' % (n, lb, ub))
-        self.with_length(buf, n, lb, ub, emit, False)        # 20.5 (fixed: no length), 20.6
+        self.with_length(buf, n, lb, ub, emit, None)         # 20.5 (fixed: no length), 20.6
 
     # ---- 23 CHOICE --------------------------------------------------------------------------
     def enc_choice(self, buf, value, btd, bmod):
@@ -688,9 +737,7 @@ class _Per:
         ext_alts = []
         for a in adds:                                       # version brackets only group alternatives
             ext_alts.extend(a if isinstance(a, list) else [a])
-        # 23.1 / 23.2: root alternatives indexed in the canonical order of their tags
-        tags = self.member_tags(btd, bmod, root)
-        root = [m for _t, _i, m in sorted(zip(tags, range(len(root)), root), key=lambda x: x[:2])]
+        root = self.choice_root_order(btd, bmod, root)
         r_idx = [i for i, m in enumerate(root) if m['name'] == name]
         a_idx = [i for i, m in enumerate(ext_alts) if m['name'] == name]
         if r_idx:
@@ -706,6 +753,12 @@ class _Per:
         else:
             raise EncodeError('CHOICE alternative %r' % (name,))
 
+    def choice_root_order(self, btd, bmod, root):
+        """23.1 / 23.2: the root alternatives are indexed in the canonical order of their tags
+        [X.680 8.6] (an untagged CHOICE alternative counts with its smallest tag)"""
+        tags = self.member_tags(btd, bmod, root)
+        return [m for _t, _i, m in sorted(zip(tags, range(len(root)), root), key=lambda x: x[:2])]
+
     # ---- 24 OBJECT IDENTIFIER ---------------------------------------------------------------
     def enc_oid(self, buf, value):
         octs = BitBuf()
@@ -713,7 +766,7 @@ class _Per:
 
         def emit(out, a, b):
             out.bits.extend(octs.bits[8 * a:8 * b])
-        self.with_length(buf, n, 0, None, emit, True)        # 24.2
+        self.with_length(buf, n, 0, None, emit, 'octets')    # 24.2
 
     # ---- 30 restricted character strings ----------------------------------------------------
     def enc_known_multiplier(self, buf, value, chain, t):
@@ -746,13 +799,22 @@ class _Per:
         def emit(out, a, e):
             for c in chars[a:e]:
                 out.uint(self._char_value(ord_shim(c), runs, reindex), b)
-        if ub is not None and lb == ub and ub < K64:         # 30.5.6: fixed size, no length
-            if ub * b > 16:
-                self.align(buf)                              # octet-aligned unless at most 16 bits
+        fixed = ub is not None and lb == ub and ub < K64
+        aligned = self.kmstring_aligned(fixed, ub, b)
+        if fixed:                                            # 30.5.6: no length determinant
+            if aligned:
+                self.align_field(buf, n, 'chars')
             emit(buf, 0, n)
-        else:                                                # 30.5.7: with length determinant; aligned
-            short = ub is not None and ub * b < 16           # unless aub x b is less than 16
-            self.with_length(buf, n, lb, ub, emit, not short)
+        else:                                                # 30.5.7: with length determinant
+            self.with_length(buf, n, lb, ub, emit, 'chars' if aligned else None)
+
+    def kmstring_aligned(self, fixed, ub, b):
+        """is the bit-field of the characters octet-aligned (ALIGNED variant)?
+        30.5.6 (fixed size aub): yes if aub x b is greater than 16;
+        30.5.7 (with length determinant): yes if aub x b is greater than or equal to 16 (or aub is unset)"""
+        if ub is None:
+            return True
+        return ub * b > 16 if fixed else ub * b >= 16
 
     @staticmethod
     def _char_value(v, runs, reindex):
